@@ -316,7 +316,7 @@ class OutputContract(Task):
             except Unsupported as ex:
                 res.append(Res(f"{self.name}.engine", "unknown", "pyvc-emit", time.time() - t0, f"children {''.join(kinds)}, finalize {fin}: unsupported: {ex}", self.kind))
                 continue
-            if len(scs) < 4:
+            if len(scs) < 2:
                 res.append(Res(f"{self.name}.paths", "error", "pyvc-emit", 0, f"children {''.join(kinds)}: only {len(scs)} paths", self.kind))
             for sc in scs:
                 k += 1
@@ -367,6 +367,7 @@ def output_tasks(prop, name, pred_factory, replay_fn, nshards=6):
 # =====================================================================================================
 
 RUNTIME_FLAG = "context.eval_ctx.autoescape"
+TEMPLATE_AUTOESCAPE = z3.Bool("template.eval_ctx.autoescape")  # the flag of EvalContext(environment, template name)
 
 
 def holds(sc, term):
@@ -469,6 +470,14 @@ def buffer_inv_pred(sc, tree, ph, txt):
     vis = sc.st.get(sc.node).cls.__name__
     par = emit.parents(tree)
     fails = []
+    if vis == "Block":
+        # The forwarded events are produced by the block function, which visit_Template compiles under Frame(eval_ctx) with the
+        # TEMPLATE's eval context (C15.buffer.inv.block_frame_source).  They satisfy the invariant of the frame in which the block
+        # is placed only if that frame has the template's flags: not volatile and autoescape == the template default.
+        if not holds(sc, z3.And(z3.Not(VOLATILE), AUTOESCAPE == TEMPLATE_AUTOESCAPE)):
+            fails.append("[block-frame:Block] the events forwarded by visit_Block come from a block function compiled under the template's eval context, "
+                         "not under the eval context of the frame in which the block is placed (nothing on this path ties the two together): "
+                         "a block inside {% autoescape %} is escaped according to the template default")
     for n in ast.walk(tree):
         if isinstance(n, ast.Yield) and n.value is not None and not _in_data_generator(n, par):
             if not _piece_ok(n.value, n, par, ph, sc):
@@ -546,6 +555,17 @@ def compiler_literals(word):
 EMITS_MARKUP = {"CodeGenerator.return_buffer_contents": "C15.buffer.inv.visit_For / macro_body", "CodeGenerator.visit_AssignBlock": "C15.buffer.inv.visit_AssignBlock",
                 "CodeGenerator.visit_Filter": "C15.buffer.inv.visit_Filter", "CodeGenerator.visit_TemplateData": "C15.buffer.inv.visit_TemplateData",
                 "CodeGenerator.visit_MarkSafe": "C15.buffer.inv.visit_MarkSafe", "CodeGenerator.visit_MarkSafeIfAutoescape": "C15.buffer.inv.visit_MarkSafeIfAutoescape"}
+
+
+def block_frame_source(task, tier, seed):
+    """premise of the block-frame clause: visit_Template compiles every block body under Frame(eval_ctx) where eval_ctx is the
+    template-level EvalContext(self.environment, self.name)"""
+    fn = _function_node("compiler", "CodeGenerator.visit_Template")
+    assigns = {ast.unparse(n.targets[0]): ast.unparse(n.value) for n in ast.walk(fn) if isinstance(n, ast.Assign) and len(n.targets) == 1}
+    ok = assigns.get("block_frame") == "Frame(eval_ctx)" and assigns.get("eval_ctx") == "EvalContext(self.environment, self.name)"
+    return [Res("C15.buffer.inv.block_frame_source", "discharged" if ok else "unknown", "ast", 0,
+                f"visit_Template: eval_ctx = {assigns.get('eval_ctx')}; block_frame = {assigns.get('block_frame')}"
+                + ("" if ok else " - the premise of the block-frame clause of C15.buffer.inv.visit_Block no longer matches the source: revise the clause"), "table")]
 
 
 def emitted_markup_inventory(task, tier, seed):
@@ -1621,7 +1641,7 @@ def native_filter_inventory(w=None):
 # =====================================================================================================
 
 STR_LOWER = z3.Function("str.lower", z3.StringSort(), z3.StringSort())
-ENABLED, DISABLED = (".html", ".htm", ".xml"), (".txt", ".html.j2")
+ENABLED, DISABLED = (".html", ".htm", ".xml"), (".txt", ".html.j2", ".raw.html")  # ".raw.html" overlaps ".html": enabled wins
 
 
 class SelectAutoescape(VC):
@@ -1683,8 +1703,8 @@ def _select_spec(name, enabled, disabled, default_for_string, default):
 
 def select_cases():
     names = [None, "", "a", "a.html", "A.HTML", "a.HtMl", "a.htm", "x.xml", "a.txt", "a.TXT", "html", ".html", "a.html.txt", "a.txt.html", "dir.html/a",
-             "a.html ", "a.xhtml", "a.htmlx", "İ.html", "a.ſvg", "a.SVG", "a.html.j2", "a.HTML.J2"]
-    exts = [(("html", "htm", "xml"), ()), ((".HTML", "Xml"), ("txt",)), (("html",), ("html.j2", ".TXT")), ((), ("html",)), (("svg",), ())]
+             "a.html ", "a.xhtml", "a.htmlx", "İ.html", "a.ſvg", "a.SVG", "a.html.j2", "a.HTML.J2", "a.raw.html"]
+    exts = [(("html", "htm", "xml"), ()), ((".HTML", "Xml"), ("txt",)), (("html",), ("html.j2", ".TXT")), ((), ("html",)), (("svg",), ()), (("html",), ("raw.html",))]
     for en, dis in exts:
         for dfs in (True, False):
             for d in (True, False):
@@ -1696,7 +1716,7 @@ def native_select_autoescape(w=None):
     from jinja2.utils import select_autoescape
     problems = []
     cases = list(select_cases())
-    if w and "enabled" not in w:
+    if w and "template_name" in w and "enabled" not in w:
         cases = [dict(w, enabled=[x.lstrip(".") for x in ENABLED], disabled=[x.lstrip(".") for x in DISABLED])] + cases
     for c in cases:
         f = select_autoescape(tuple(c["enabled"]), tuple(c["disabled"]), default_for_string=c["default_for_string"], default=c["default"])
@@ -1710,7 +1730,7 @@ def select_bounded(task, tier, seed):
     t0 = time.time()
     bad, detail = native_select_autoescape(None)
     n = len(list(select_cases()))
-    task.bound_text = f"{n} cases: 23 template names (mixed case, multi-suffix, None) x 5 extension spellings (leading dot, upper case) x defaults"
+    task.bound_text = f"{n} cases: 24 template names (mixed case, multi-suffix, None) x 6 extension spellings (leading dot, upper case) x defaults"
     if bad:
         return [Res("C15.select_autoescape.bounded", "refuted", "native", time.time() - t0, detail, "bounded", {"bounded": True})]
     return [Res("C15.select_autoescape.bounded", "bounded-ok", "native", time.time() - t0, f"{n} cases (extension spelling normalisation: leading dots, case)", "bounded")]
@@ -1736,20 +1756,32 @@ def leaks(out):
 def native_output_family(w=None):
     """Render real templates with data / literals containing metacharacters under static autoescape on,
     `{% autoescape true %}` and `{% autoescape x %}` (run-time decided, x=True), environment default off and on.
-    Property oracle: no raw metacharacter in the output."""
+    Property oracle: no raw metacharacter in the output.  A witness narrows the family to the failing case
+    (volatile or static frame; compile-time constants or run-time children)."""
     from jinja2 import Environment
     problems = []
-    exprs = ['v', '"<"', "'<' ~ 'a'", '"<" + "&"', 'v ~ "<"', '[v][0]', '"%s"|format("<")', '("<", ">")|join', 'v|upper', '"<"|upper',
-             'v if t else v', '"<" if t else ">"', 'none|default("<")']
+    literal = ['"<"', "'<' ~ 'a'", '"<" + "&"', '"<" if true else ">"', '("<", ">")|join', '"<"|upper', '"%s"|format("<")']
+    runtime = ['v', 'v ~ "<"', '[v][0]', 'v|upper', 'v if t else v', 'none|default(v)', 'v|string', 'v.strip()']
+    modes = [("", "", "static"), ("{% autoescape true %}", "{% endautoescape %}", "block"),
+             ("{% autoescape x %}", "{% endautoescape %}", "volatile"), ("{% autoescape x %}{% set y %}", "{% endset %}{{ y }}{% endautoescape %}", "volatile")]
+    exprs = literal + runtime
+    if isinstance(w, dict) and "categories" in w:
+        cats = " ".join(w["categories"])
+        if w.get("volatile"):
+            modes = [m for m in modes if m[2] == "volatile"]
+        else:
+            modes = [m for m in modes if m[2] != "volatile"]
+        if "const" in cats and "runtime" not in cats:
+            exprs = literal
+        elif "runtime" in cats and "const" not in cats:
+            exprs = runtime
     finals = [None, lambda x: x, lambda x: "" if x is None else x]
     for fin in finals:
         for default in (False, True):
             env = Environment(autoescape=default, finalize=fin)
             for e in exprs:
-                for pre, post, active in (("", "", default), ("{% autoescape true %}", "{% endautoescape %}", True),
-                                          ("{% autoescape x %}", "{% endautoescape %}", True),
-                                          ("{% autoescape x %}{% set y %}", "{% endset %}{{ y }}{% endautoescape %}", True)):
-                    if not active:
+                for pre, post, mode in modes:
+                    if mode == "static" and not default:
                         continue
                     src = f"{pre}a{{{{ {e} }}}}b {{{{ {e} }}}}{{{{ v }}}}{post}"
                     try:
@@ -1768,32 +1800,63 @@ BLOCK_FILTERS = ["striptags", "trim", "upper", "lower", "capitalize", "title", "
 
 
 def native_block_family(w=None):
-    """Filter blocks, set blocks (with and without filter), macros, call blocks and recursive loops around data with
-    metacharacters, autoescape static / block / run-time decided: no raw metacharacter reaches the output."""
-    from jinja2 import Environment
+    """Filter blocks, set blocks (with and without filter), macros, call blocks, recursive loops, includes and blocks around
+    data with metacharacters, autoescape static / block / run-time decided: no raw metacharacter reaches the output.
+    A witness (an emission schema) narrows the family to the construct it came from; without one, the two constructs with a
+    known finding (a block filter that returns a plain str; a block inside {% autoescape %}) are left out."""
+    from jinja2 import Environment, DictLoader
     problems = []
-    bodies = ["{% filter F %}{{ v }}{% endfilter %}", "{% set y | F %}{{ v }}{% endset %}{{ y }}", "{% set y %}{{ v }}{% endset %}{{ y|F }}",
-              "{% macro m(a) %}{% filter F %}{{ a }}{% endfilter %}{% endmacro %}{{ m(v) }}",
-              "{% macro m() %}{{ caller()|F }}{% endmacro %}{% call m() %}{{ v }}{% endcall %}",
-              "{% for x in [[v]] recursive %}{% if x is string %}{% filter F %}{{ x }}{% endfilter %}{% else %}{{ loop(x) }}{% endif %}{% endfor %}"]
+    families = {
+        "filter": ["{% filter F %}{{ v }}{% endfilter %}"],
+        "set_filter": ["{% set y | F %}{{ v }}{% endset %}{{ y }}"],
+        "set": ["{% set y %}{{ v }}{% endset %}{{ y|F }}", "{% set y %}{{ v }}{% endset %}{% set z %}{{ y }}{% endset %}{{ z }}"],
+        "macro": ["{% macro m(a) %}{{ a|F }}{% endmacro %}{{ m(v) }}", "{% macro m() %}{{ caller()|F }}{% endmacro %}{% call m() %}{{ v }}{% endcall %}"],
+        "loop": ["{% for x in [[v]] recursive %}{% if x is string %}{{ x|F }}{% else %}{{ loop(x) }}{% endif %}{% endfor %}"],
+        "include": ["{% include 'inc_F' %}", "{% include 'inc_F' without context %}{% include ['nope', 'inc_F'] %}"],
+        "block": ["{% block b %}{{ v|F }}{% endblock %}", "{% block c scoped %}{{ v|F }}{% endblock %}{{ self.c() }}"],
+    }
+    schema = (w or {}).get("schema", "") if isinstance(w, dict) else ""
+    filters = list(BLOCK_FILTERS)
+    if "context.blocks" in schema:
+        chosen = ["block"]
+    elif "node.filter" in schema:
+        chosen = ["set_filter"] if "node.target" in schema else ["filter"]
+    elif "node.target" in schema and "concat(" in schema:
+        chosen = ["set"]
+    elif "def loop" in schema:
+        chosen = ["loop"]
+    elif "def macro" in schema:
+        chosen = ["macro"]
+    elif "root_render_func" in schema or "_get_default_module" in schema:
+        chosen = ["include"]
+    else:
+        chosen = [f for f in families if f != "block"]
+        filters.remove("striptags")
+    slug = lambda f: re.sub(r"\W", "_", f)
+    lib = {"inc_" + slug(f): "{{ v|%s }}{%% set q %%}{{ v }}{%% endset %%}{{ q }}" % f for f in filters}
     for mode in ("static", "block", "volatile"):
-        env = Environment(autoescape=(mode == "static"))
+        env = Environment(autoescape=(mode == "static"), loader=DictLoader(lib))
+        env.globals["v"] = "<v&>"  # visible to `include ... without context`
         pre, post = {"static": ("", ""), "block": ("{% autoescape true %}", "{% endautoescape %}"), "volatile": ("{% autoescape x %}", "{% endautoescape %}")}[mode]
-        for f in BLOCK_FILTERS:
-            for b in bodies:
-                src = pre + b.replace("F", f) + post
-                try:
-                    out = env.from_string(src).render(v="<v&>", x=True)
-                except Exception as ex:
-                    problems.append(f"{src}: {type(ex).__name__}: {ex}")
-                    continue
-                lk = leaks(out)
-                if lk:
-                    problems.append(f"Environment(autoescape={mode == 'static'}).from_string({src!r}).render(v='<v&>', x=True) == {out!r}: raw {lk}")
-    return (bool(problems), "; ".join(problems[:3]) or "filter block / set block / macro / call / recursive loop family: nothing raw in the output")
+        for fam in chosen:
+            if fam == "include" and mode != "static":
+                continue  # an included template has its own autoescape decision
+            for f in filters:
+                for b_ in families[fam]:
+                    src = pre + b_.replace("inc_F", "inc_" + slug(f)).replace("F", f) + post
+                    try:
+                        out = env.from_string(src).render(v="<v&>", x=True)
+                    except Exception as ex:
+                        problems.append(f"{src}: {type(ex).__name__}: {ex}")
+                        continue
+                    lk = leaks(out)
+                    if lk:
+                        problems.append(f"Environment(autoescape={mode == 'static'}).from_string({src!r}).render(v='<v&>', x=True) == {out!r}: raw {lk}")
+    return (bool(problems), "; ".join(problems[:3]) or f"{'/'.join(chosen)} family (static, block and run-time decided autoescape): nothing raw in the output")
 
 
 TASKS = output_tasks("C15", "C15.output.wrap", output_wrap_pred, native_output_family) + buffer_inv_tasks(native_block_family) + flow_tasks() + wrapper_sink_tasks() + [FnTask("C15", "C15.buffer.inv.emitted_inventory", emitted_markup_inventory, "table", native_block_family),
+              FnTask("C15", "C15.buffer.inv.block_frame_source", block_frame_source, "table", native_block_family),
               FnTask("C15", "C15.sink.structural", structural_sinks, "table", native_structural), FnTask("C15", "C15.filter.inventory", filter_inventory, "table", native_filter_inventory),
            SelectAutoescape(False), SelectAutoescape(True), FnTask("C15", "C15.select_autoescape.bounded", select_bounded, "bounded", native_select_autoescape)]
 
